@@ -87,7 +87,13 @@ func (f *formatValidator) Validate(val interface{}) *Result {
 		result = new(Result)
 	}
 
-	if err := FormatOf(f.Path, f.In, f.Format, val.(string), f.KnownFormats); err != nil {
+	data, isString := val.(string)
+	if !isString {
+		// Applies only guarantees a value of kind string (e.g. a json.Number): use its underlying string
+		data = reflect.ValueOf(val).String()
+	}
+
+	if err := FormatOf(f.Path, f.In, f.Format, data, f.KnownFormats); err != nil {
 		result.AddErrors(err)
 	}
 
